@@ -100,28 +100,30 @@ func segPrefix(a, b []byte) bool {
 }
 
 type keysReport struct {
-	JoinTuples        int            `json:"joinlenprefix_tuples"`
-	JoinDistinct      int            `json:"joinlenprefix_distinct_outputs"`
-	JoinCollisions    map[string]int `json:"joinlenprefix_collision_pairs_by_class"`
-	FsmCtors          int            `json:"fsm_constructors"`
-	FsmTuples         int            `json:"fsm_tuples"`
-	FsmDistinct       int            `json:"fsm_distinct_keys"`
-	FsmRangeChecks    int64          `json:"fsm_prefix_range_checks"`
-	FsmSegPrefixProd  int            `json:"fsm_whole_segment_prefix_pairs_production_class"`
-	FsmSegPrefixOther int            `json:"fsm_whole_segment_prefix_pairs_other"`
-	FsmMalformed      map[string]int `json:"fsm_malformed_keys_by_constructor"`
-	IdxOps            int            `json:"indexer_index_calls"`
-	IdxKeys           int            `json:"indexer_keys_observed"`
-	IdxDistinct       int            `json:"indexer_distinct_keys"`
-	IdxKinds          map[string]int `json:"indexer_keys_by_kind"`
-	IdxRangeChecks    int64          `json:"indexer_prefix_range_checks"`
-	IdxStorePanics    map[string]int `json:"indexer_store_panics_by_class"`
-	IdxSegPrefixProd  int            `json:"indexer_whole_segment_prefix_pairs_production_class"`
-	CommitIDKeys      int            `json:"commit_id_keys_observed"`
-	VersionedRT       int            `json:"versioned_key_roundtrips"`
-	Journal           string         `json:"state_change_journal_segprefix"`
-	OrderIDStoreGet   string         `json:"store_get_with_overlong_order_id"`
-	Evaluations       int64          `json:"evaluations"`
+	JoinTuples           int            `json:"joinlenprefix_tuples"`
+	JoinDistinct         int            `json:"joinlenprefix_distinct_outputs"`
+	JoinCollisions       map[string]int `json:"joinlenprefix_collision_pairs_by_class"`
+	FsmCtors             int            `json:"fsm_constructors"`
+	FsmTuples            int            `json:"fsm_tuples"`
+	FsmDistinct          int            `json:"fsm_distinct_keys"`
+	FsmRangeChecks       int64          `json:"fsm_prefix_range_checks"`
+	StoreRangeKeys       int            `json:"fsm_keys_committed_for_store_range_check"`
+	StoreRangeIterations int            `json:"fsm_prefix_iterations_through_the_store"`
+	FsmSegPrefixProd     int            `json:"fsm_whole_segment_prefix_pairs_production_class"`
+	FsmSegPrefixOther    int            `json:"fsm_whole_segment_prefix_pairs_other"`
+	FsmMalformed         map[string]int `json:"fsm_malformed_keys_by_constructor"`
+	IdxOps               int            `json:"indexer_index_calls"`
+	IdxKeys              int            `json:"indexer_keys_observed"`
+	IdxDistinct          int            `json:"indexer_distinct_keys"`
+	IdxKinds             map[string]int `json:"indexer_keys_by_kind"`
+	IdxRangeChecks       int64          `json:"indexer_prefix_range_checks"`
+	IdxStorePanics       map[string]int `json:"indexer_store_panics_by_class"`
+	IdxSegPrefixProd     int            `json:"indexer_whole_segment_prefix_pairs_production_class"`
+	CommitIDKeys         int            `json:"commit_id_keys_observed"`
+	VersionedRT          int            `json:"versioned_key_roundtrips"`
+	Journal              string         `json:"state_change_journal_segprefix"`
+	OrderIDStoreGet      string         `json:"store_get_with_overlong_order_id"`
+	Evaluations          int64          `json:"evaluations"`
 }
 
 // ---------------------------------------------------------------------------------------
@@ -458,6 +460,7 @@ func checkFsmKeys(r *mc.Run, rep *keysReport) {
 		}
 	}
 	rep.Evaluations += rep.FsmRangeChecks
+	checkFsmRangesThroughStore(r, rep, all, prefixes, keys)
 	// whole-segment-prefix pairs among stored keys
 	sorted := append([]int{}, keys...)
 	sort.Slice(sorted, func(a, b int) bool { return bytes.Compare(all[sorted[a]].key, all[sorted[b]].key) < 0 })
@@ -485,6 +488,117 @@ func checkFsmKeys(r *mc.Run, rep *keysReport) {
 		r.Violation("C19:segment-prefix-keys:fsm", fmt.Sprintf("%d pairs of production-class state keys where one is a whole-segment prefix of the other (the store mis-iterates this class, see C10), e.g. %s",
 			rep.FsmSegPrefixProd, example), map[string]any{"part": "fsmkeys"})
 	}
+}
+
+// checkFsmRangesThroughStore binds inRange (the harness's statement of the production iteration range) to the store:
+// every production-class stored key is committed to a real pebble database through the exported VersionedStore (several
+// versions each, so that the iterator's "skip the other versions of this key" seek runs too), and every production-class
+// prefix is then iterated, forwards and backwards, through the store's own iterator. What comes back must be exactly the
+// committed keys that start with the prefix.
+func checkFsmRangesThroughStore(r *mc.Run, rep *keysReport, all []kinst, prefixes, keys []int) {
+	db, err := pebble.Open("", &pebble.Options{FS: vfs.NewMem(), FormatMajorVersion: pebble.FormatColumnarBlocks, Logger: lib.NewNullLogger()})
+	if err != nil {
+		panic(err)
+	}
+	defer db.Close()
+	written := map[string]bool{}
+	b := db.NewBatch()
+	vs := store.NewVersionedStore(nil, b, 0)
+	for _, ki := range keys {
+		k := all[ki]
+		if !k.prod || len(k.key) == 0 || len(k.key) > 200 || written[string(k.key)] {
+			continue
+		}
+		written[string(k.key)] = true
+		for v := uint64(1); v <= 3; v++ {
+			if e := vs.SetAt(bytes.Clone(k.key), []byte{byte(v)}, v); e != nil {
+				panic(e)
+			}
+		}
+	}
+	if e := db.Apply(b, pebble.NoSync); e != nil {
+		panic(e)
+	}
+	b.Close()
+	var sortedKeys []string
+	for k := range written {
+		sortedKeys = append(sortedKeys, k)
+	}
+	sort.Strings(sortedKeys)
+	snap := db.NewSnapshot()
+	defer snap.Close()
+	rd := store.NewVersionedStore(snap, nil, 3)
+	seenPrefix := map[string]bool{}
+	for _, pi := range prefixes {
+		p := all[pi]
+		if !p.prod || len(p.key) == 0 || seenPrefix[string(p.key)] {
+			continue
+		}
+		seenPrefix[string(p.key)] = true
+		var want []string
+		for _, k := range sortedKeys {
+			if bytes.HasPrefix([]byte(k), p.key) {
+				want = append(want, k)
+			}
+		}
+		for _, reverse := range []bool{false, true} {
+			var got []string
+			func() {
+				defer func() {
+					if pv := recover(); pv != nil {
+						got = append(got, fmt.Sprintf("panic: %v", pv))
+					}
+				}()
+				var it lib.IteratorI
+				var e lib.ErrorI
+				if reverse {
+					it, e = rd.RevIterator(bytes.Clone(p.key))
+				} else {
+					it, e = rd.Iterator(bytes.Clone(p.key))
+				}
+				if e != nil {
+					got = append(got, "error: "+e.Error())
+					return
+				}
+				defer it.Close()
+				for n := 0; it.Valid() && n <= len(sortedKeys)+1; it.Next() {
+					got = append(got, string(it.Key()))
+					n++
+				}
+			}()
+			if reverse {
+				sort.Strings(got)
+			}
+			rep.StoreRangeIterations++
+			rep.Evaluations += int64(len(sortedKeys))
+			if strings.Join(got, "\x00|") != strings.Join(want, "\x00|") {
+				extra, missing := "", ""
+				ws := map[string]bool{}
+				for _, k := range want {
+					ws[k] = true
+				}
+				gs := map[string]bool{}
+				for _, k := range got {
+					gs[k] = true
+					if !ws[k] && extra == "" {
+						extra = fmt.Sprintf("%x", k)
+					}
+				}
+				for _, k := range want {
+					if !gs[k] && missing == "" {
+						missing = fmt.Sprintf("%x", k)
+					}
+				}
+				dir := "forward"
+				if reverse {
+					dir = "reverse"
+				}
+				r.Violation("C19:prefix-range:store-iterator:"+p.ctor.name, fmt.Sprintf("%s iteration of %s = %x over %d committed production-class keys returned %d keys, %d start with the prefix (first foreign key %s, first missing key %s)",
+					dir, p.desc, p.key, len(sortedKeys), len(got), len(want), extra, missing), map[string]any{"part": "fsmkeys", "prefix": p.desc})
+			}
+		}
+	}
+	rep.StoreRangeKeys = len(sortedKeys)
 }
 
 // ---------------------------------------------------------------------------------------
